@@ -84,7 +84,9 @@ func genC14Requests(r *rand.Rand, cc *checkCase, n int) []*c14Req {
 	return reqs
 }
 
-func (q *c14Req) key() string { return q.Kind + "|" + q.Target + "|" + q.Body + "|" + fmt.Sprint(q.Tuple) }
+func (q *c14Req) key() string {
+	return q.Kind + "|" + q.Target + "|" + q.Body + "|" + fmt.Sprint(q.Tuple)
+}
 
 // c14Exec executes the request and returns a normalised answer.
 func c14Exec(ctx context.Context, env *Env, read http.Handler, g *grpcClients, q *c14Req) string {
